@@ -325,8 +325,8 @@ def run(repo):
     for cls_fq, (owner, paths) in STATE.items():
         cls = repo.cls(cls_fq)
         for name, fi in sorted(cls.methods.items()):
-            if name in CLOSURE:
-                continue
+            if name in CLOSURE or fi.absorbed:
+                continue          # absorbed: private helper analysed as part of each caller
             hit = written_state(repo, cls_fq, fi, paths)
             if not hit:
                 continue
